@@ -1,11 +1,15 @@
 (* C17 — Plugin processes are contained: validated replies, bounded output,
    bounded time. Statements only; every proof is [exact <lemma of C17_Proofs>].
 
-   Quantifiers: every protocol command, plugin name, exit code, stdout/stderr
-   length, every decoding of stdout/stderr reported by encoding/json (oracle
-   input of the model), every timing of the process, its descendants and the
-   context; every limit and every sequence of writes over every underlying
+   Quantifiers: every protocol command, plugin name, file name, kind of file,
+   exit code, stdout/stderr length, every decoding of stdout/stderr reported by
+   encoding/json (oracle input of the model; a structured error with its code,
+   message and metadata map), every timing of the process, its descendants and
+   the context; every limit and every sequence of writes over every underlying
    writer that reports a count between 0 and what it was offered.
+   Further theorems (converse directions, exhaustive classification, the name
+   check against the file name, the io.Copy wiring of the cap, the time bound
+   at CLIPlugin's own configuration): props/C17_Audit.v; audit: docs/audit/C17.md.
 
    PARTIAL: the theorems about time (C17_bounded_*, C17_unbounded_*_refuted,
    C17_no_context_refuted) are about a hand-written timed transition model of
